@@ -238,6 +238,11 @@ def run_kind(ctx, kind, extra=None, shards=None, exe='harness', tier=None, timeo
                 os.remove(fp)
             except OSError:
                 pass
+    if not rows and extra and '-only' in extra and not any(r[0] in ('harness-failed', 'driver-failed') for r in results):
+        # a filter that matches no case must not pass for a run (C17 claimed `-only Dematerialize` runs that did not exist)
+        empty = ctx.dist.setdefault('empty_filters', [])
+        empty.append(f'{kind} ' + ' '.join(extra))
+        ctx.notes.append(f'kind={kind} {" ".join(extra)}: the filter generated no case')
     return rows
 
 
